@@ -159,13 +159,38 @@ contract(
     sentence={"forall": "sub-pixels are ordered pixel by pixel (slim order) then top-to-bottom, left-to-right"},
 )
 
+# (row, column) of sub-pixel (a, b) of the slim pixel k = cnt2(M, y, x) in the over-sampled frame, as functions of the integers
+# k, a / k, b only (quantified invariants need congruence alone; the products y*S[k] are unfolded once per ground term)
+_NATI = ("forall(0, H, lambda y: forall(0, W, lambda x: forall(0, c09_sub_g(M, S, y, x), lambda {v}:"
+         " {f}(M, S, cnt2(M, y, x), {v}) == {c} * S[cnt2(M, y, x)] + {v}, pat={f}(M, S, cnt2(M, y, x), {v}))))")
+
+
+def _nat_py(c):
+    def f(M, S, k, v):
+        i = _pix_py(M, k, c)
+        return 0 if (i < 0 or not 0 <= k < len(S)) else i * int(S[k]) + int(v)
+    return f
+
+
+def _pix_py(M, k, c):
+    idx = np.argwhere(~np.asarray(M, dtype=bool))
+    return int(idx[k][c]) if 0 <= k < len(idx) else -1
+
+
+# (as c09_sub, but also 0 when the sub-size map is too short for the mask: keeps the axioms below well-defined for every M, S)
+macro("c09_sub_g", ["M", "S", "y", "x"], "(0 if (M[y, x] or cnt2(M, y, x) >= S.shape[0]) else S[cnt2(M, y, x)])")
+spec_fn("c09_naty", params=[("M", "bool[2]"), ("S", "int[1]"), ("k", "int"), ("a", "int")], ret="int",
+        let={"H": "M.shape[0]", "W": "M.shape[1]"}, axioms=[_NATI.format(f="c09_naty", v="a", c="y")], py=_nat_py(0))
+spec_fn("c09_natx", params=[("M", "bool[2]"), ("S", "int[1]"), ("k", "int"), ("b", "int")], ret="int",
+        let={"H": "M.shape[0]", "W": "M.shape[1]"}, axioms=[_NATI.format(f="c09_natx", v="b", c="x")], py=_nat_py(1))
+
 _nat_loops = _walk("slim_index", "sub_slim_index",
                    "forall(0, sub_slim_index, lambda t:"
-                   " sub_native_index_for_sub_slim_index_2d[t, 0] == pixy(M, c09_pk(S, t)) * S[c09_pk(S, t)] + c09_pa(S, t)"
-                   " and sub_native_index_for_sub_slim_index_2d[t, 1] == pixx(M, c09_pk(S, t)) * S[c09_pk(S, t)] + c09_pb(S, t))")
+                   " sub_native_index_for_sub_slim_index_2d[t, 0] == c09_naty(M, S, c09_pk(S, t), c09_pa(S, t))"
+                   " and sub_native_index_for_sub_slim_index_2d[t, 1] == c09_natx(M, S, c09_pk(S, t), c09_pb(S, t)))")
 _nat_loops[3]["assert_at"] = {0: [
     "c09_pk(S, sub_slim_index) == slim_index and c09_pa(S, sub_slim_index) == y1 and c09_pb(S, sub_slim_index) == x1",
-    "pixy(M, slim_index) == y and pixx(M, slim_index) == x"]}
+    "y * sub + y1 == c09_naty(M, S, slim_index, y1) and x * sub + x1 == c09_natx(M, S, slim_index, x1)"]}
 contract(
     U + "native_sub_index_for_slim_sub_index_2d_from", props=["C09"],
     types={"mask_2d": "bool[2]", "sub_size": "int[1]"}, returns="real[2]", let=HW,
@@ -215,13 +240,6 @@ def _subx_py(M, S, sx, ox, k, b):
     return 0.0 if n == 0 else float(ox + (_pix_py(M, k, 1) - (M.shape[1] - 1) / 2) * sx - sx / 2 + (b + 0.5) * (sx / n))
 
 
-def _pix_py(M, k, c):
-    idx = np.argwhere(~np.asarray(M, dtype=bool))
-    return int(idx[k][c]) if 0 <= k < len(idx) else -1
-
-
-# (as c09_sub, but also 0 when the sub-size map is too short for the mask: keeps the axioms below well-defined for every M, S)
-macro("c09_sub_g", ["M", "S", "y", "x"], "(0 if (M[y, x] or cnt2(M, y, x) >= S.shape[0]) else S[cnt2(M, y, x)])")
 _NAT = ("forall(0, H, lambda y: forall(0, W, lambda x: forall(0, c09_sub_g(M, S, y, x), lambda {v}:"
         " {f}(M, S, {s}, {o}, cnt2(M, y, x), {v}) == {body}, pat={f}(M, S, {s}, {o}, cnt2(M, y, x), {v}))))")
 spec_fn("c09_suby", params=[("M", "bool[2]"), ("S", "int[1]"), ("sy", "$real"), ("oy", "$real"), ("k", "int"), ("a", "int")],
